@@ -97,7 +97,8 @@ def check(tier, seed):
                     if not ok:
                         run.violation("response:one-error-per-failed-position", "error paths %r, failed positions %r" % (g, wnt), w, True)
     # resolver-supplied extensions, as dict and as a non-dict Mapping, and non-finite floats
-    for label, world in (("extensions-dict", {("me", "name"): ("error", "E", {"code": 7, "nested": {"a": [1, 2]}})}),
+    for label, world in (("empty-message", {("me", "name"): ("error", "", {"code": 7})}),
+                         ("extensions-dict", {("me", "name"): ("error", "E", {"code": 7, "nested": {"a": [1, 2]}})}),
                          ("extensions-mappingproxy", {("me", "name"): ("error", "E", types.MappingProxyType({"code": 7}))}),
                          ):
         got = H.run_request(schema, "{ me { name any } }", {}, world, "blocking-executor")
@@ -164,6 +165,22 @@ def check(tier, seed):
         judge(resp, text, "request", w)
         if "data" not in resp or resp["data"] is not None or not resp.get("errors"):
             run.violation("response:request-errors", "variable / operation-selection failure must give data: null and errors, got %r" % (resp,), w, True)
+    # requests whose variables are accepted but fail where they are USED at execution time (explicit null for a defaulted variable feeding a non-null
+    # directive argument; a Float variable beyond the range of a double; a huge Int): still a result, in every configuration
+    for text, variables in [("query ($v: Boolean = true) { count @skip(if: $v) me { name } }", {"v": None}),
+                            ("query ($v: Boolean = true) { me { name @include(if: $v) age } }", {"v": None}),
+                            ("query ($v: Boolean = false) { me { ... @skip(if: $v) { name } ...F @include(if: $v) } } fragment F on Person { age }", {"v": None}),
+                            ("query ($x: Float) { me { name } }", {"x": 10 ** 400}),
+                            ("query ($x: Int) { me { friends(first: $x) { name } } }", {"x": 10 ** 400})]:
+        for cfg in H.CONFIGS:
+            n += 1
+            got = H.run_request(schema, text, variables, {}, cfg)
+            w = {"text": text, "variables": {k: (repr(v)[:12] + "..." if len(repr(v)) > 12 else v) for k, v in variables.items()}, "config": cfg}
+            if got["outcome"] != "result":
+                run.violation("response:every-request-returns-a-result", "request %s: %r" % (got["outcome"], got.get("exc")),
+                              dict(w, exc=type(got.get("exc")).__name__, directive=("@skip" in text or "@include" in text)), True)
+                continue
+            judge(got["result"].response(), text, "request", w)
     if nontrivial == 0:
         raise MachineryDefect("no executed request")
     run.cov["evaluations"] = n
